@@ -162,7 +162,8 @@ Proof.
     apply close_og_lsame in Eclose. cbn [refs_of].
     assert (t2 = s') by (destruct cl; apply ret_ok in K2 as [_ <-]; reflexivity). subst t2.
     intros g Hg. apply Hb. rewrite <- Eclose. exact Hg.
-  - cbn [eval_item] in H. inv_bind_as H k t1 Ek K1. inv_bind_as K1 fr1 t2 Ebody K2. inv_bind_as K2 u3 t3 E3 K3.
+  - cbn [eval_item] in H. inv_bind_as H k t1 Ek K1. inv_bind_as K1 fr1 t2 Ebody K2. inv_bind_as K2 uc tc Ec Kc.
+    apply chk_ok in Ec as [-> _]. inv_bind_as Kc u3 t3 E3 K3.
     apply ret_ok in K3 as [_ <-].
     assert (Hs1 : lsame s t1).
     { destruct pg; [apply ret_ok in Ek as [_ <-]; reflexivity|eapply fresh_dup_lsame; eauto]. }
